@@ -2048,7 +2048,13 @@ def argsort(a, kind=None):
     if kind in (None, "quicksort") and n > 1 and _py_any(is_sym(c) for c in cells):
         # unstable by contract: ANY permutation that sorts the keys (fresh symbolic permutation)
         e = E()
+        # unspecified but deterministic: the same input (same cells) gets the same permutation within a path
+        memo = e.notes.setdefault("argsort_memo", {})
+        mkey = tuple((c.get_id() if is_sym(c) else ("c", c)) for c in cells)
+        if mkey in memo:
+            return ndarray(_Store(list(memo[mkey][0])), list(range(n)), (n,), _I64)
         perm = [e.fresh_int("perm", 0, n - 1) for _ in range(n)]
+        memo[mkey] = (perm, cells)
         e.add(z3.Distinct(*perm))
         sel = [_select(cells, p) for p in perm]
         for i in range(n - 1):
